@@ -57,7 +57,12 @@ func c19Work(seed uint64, kp *keys.Pair) c19Result {
 		res.Err = "parse: " + perr.Error()
 		return res
 	}
-	if err := p.Interpolate(refmodel.NewEnv(false, c04Env()), seed%2 == 0); err != nil {
+	// every fourth life cycle interpolates with a nil environment (the library then supplies its own)
+	var ienv pipeline.InterpolationEnv = refmodel.NewEnv(false, c04Env())
+	if seed%4 == 1 {
+		ienv = nil
+	}
+	if err := p.Interpolate(ienv, seed%2 == 0); err != nil {
 		res.Err = "interpolate: " + err.Error()
 		return res
 	}
